@@ -101,7 +101,7 @@ class C08(Prop):
                    '(rule stated by the anchor: per-bound unit, else the other bound unit, else the default unit)']
     floors = {'quick': (200, 60), 'thorough': (4000, 1000)}
     must_reach = ['discrete_time_interpreter:DiscreteTimeInterpreter.time_unit_transformer']
-    quick_cases = 1500
+    quick_cases = 1200
     thorough_cases = 800000
     shrink_data = False
     case_timeout = 8
